@@ -568,6 +568,145 @@ def native_composed_witness(rec, kinds):
     return None
 
 
+def covariate_slices(rec, kinds):
+    """compositions with covariate-carrying sub-models ('cov' = a hierarchical sub-model with a symbolic number of covariates): in every
+    method each sub-model receives its own covariate columns COV[:, coff_k : coff_k + c_k] -- besides its own parameters and columns"""
+    chi_sym = loader.load_shadow()
+    Base = make_stub_class(chi_sym)
+    tag = 'Composed[%s]' % ','.join(kinds)
+    q = 'chi._population_models.ComposedPopulationModel.'
+    P = sp.IndexedBase('P', real=True)
+    COV = sp.IndexedBase('COV', real=True)
+    t, i, j = sp.symbols('t i j', integer=True)
+
+    class CStub(Base):
+        def __init__(self, k, kind):
+            Base.__init__(self, k, 'regular' if kind == 'cov' else kind)
+            self.c = sp.Symbol('c%d' % k, integer=True, positive=True) if kind == 'cov' else sp.Integer(0)
+            self.covs = []
+
+        def n_covariates(self):
+            return S(self.c) if self.c != 0 else 0
+
+        def compute_log_likelihood(self, parameters, observations, covariates=None, **kw):
+            self.covs.append(('ll', covariates))
+            return Base.compute_log_likelihood(self, parameters, observations)
+
+        def compute_individual_parameters(self, parameters, eta, covariates=None, return_eta=False, **kw):
+            self.covs.append(('ip', covariates))
+            return Base.compute_individual_parameters(self, parameters, eta)
+
+        def compute_sensitivities(self, parameters, observations, covariates=None, dlogp_dpsi=None, reduce=False, **kw):
+            self.covs.append(('se', covariates))
+            return Base.compute_sensitivities(self, parameters, observations, dlogp_dpsi=dlogp_dpsi, reduce=reduce)
+    stubs = [CStub(k, kind) for k, kind in enumerate(kinds)]
+    holder = {}
+
+    def build():
+        holder['m'] = chi_sym.ComposedPopulationModel(stubs)
+        return holder['m']
+    cp = explore(build, [N >= 1])
+    ok = [(c, r[1]) for c, r, _ in cp if r[0] == 'ret']
+    if not ok:
+        rec.run(tag + '/covariates.constructor', [q + '__init__'], 'Pκ', lambda: ('undecided', 'engine', 'constructor: %r' % ([r[1] for _, r, _ in cp][:1],)))
+        return
+    cpath, m = ok[0]
+    base = [N >= 1] + cpath
+    D = sum(s.d for s in stubs)
+    Ptot = sum(s.p for s in stubs)
+    Ctot = sum(s.c for s in stubs)
+    coff = [sum(s.c for s in stubs[:k]) for k in range(len(stubs))]
+    par = T((Ptot,), lambda ix: P[ix[0]])
+    x = T((N, D), lambda ix: X[ix[0], ix[1]])
+    u = T((N, D), lambda ix: U[ix[0], ix[1]])
+    cov = T((N, Ctot), lambda ix: COV[ix[0], ix[1]])
+    calls = {
+        'compute_log_likelihood': ('ll', lambda: m.compute_log_likelihood(par, x, covariates=cov)),
+        'compute_sensitivities': ('se', lambda: m.compute_sensitivities(par, x, covariates=cov, dlogp_dpsi=u)),
+        'compute_sensitivities(reduce)': ('se', lambda: m.compute_sensitivities(par, x, covariates=cov, dlogp_dpsi=u, reduce=True)),
+        'compute_individual_parameters': ('ip', lambda: m.compute_individual_parameters(par, x, covariates=cov)),
+    }
+
+    def go():
+        for name, (kd, fn) in calls.items():
+            for s in stubs:
+                s.covs, s.calls = [], []
+            paths = explore(fn, base)
+            if len(paths) != 1 or paths[0][1][0] != 'ret':
+                raise Unsupported('%s: paths %s' % (name, [(r[0], str(r[1])[:80]) for _, r, _ in paths]))
+            for k, s in enumerate(stubs):
+                got = [c_ for kk, c_ in s.covs if kk == kd]
+                if len(got) != 1:
+                    return ('refuted', 'call-site precondition', '%s: sub-model %d is called %d times' % (name, k, len(got)))
+                if s.c == 0:
+                    continue
+                cv = got[0]
+                if not (isinstance(cv, T) and len(cv._shape) == 2 and sp.expand(cv._shape[1] - s.c) == 0 and sp.expand(cv._shape[0] - N) == 0):
+                    return ('refuted', 'call-site precondition', '%s: sub-model %d receives covariates of shape %s, its own are (N, %s)' % (name, k, getattr(cv, '_shape', None), s.c))
+                st, res, _ = normal.prove_equal(cv.el(i, t), COV[i, coff[k] + t], base + [i >= 0, i < N, t >= 0, t < s.c])
+                if st != 'proved':
+                    return ('refuted', 'call-site precondition', '%s: sub-model %d receives the covariate columns %s, its own are COV[i, %s + t]' % (name, k, str(cv.el(i, t))[:80], coff[k]))
+        return ('discharged', 'sigma-normal-form + z3', '%d methods: every covariate-dependent sub-model receives its own covariate columns' % len(calls))
+
+    def backed():
+        r = go()
+        if r[0] != 'refuted':
+            return r
+        wit = native_covariate_witness(rec)
+        if wit is None:
+            return ('undecided', r[1], r[2] + ' (no native counterexample found on real sub-models)')
+        return ('refuted', r[1] + '; native replay', r[2] + ' | ' + wit['what'], wit)
+    rec.run(tag + '/covariates.own-columns', [q + 'compute_log_likelihood', q + 'compute_sensitivities', q + '_compute_sensitivities', q + '_compute_reduced_sensitivities', q + 'compute_individual_parameters'], 'Pκ', backed)
+
+
+def native_covariate_witness(rec):
+    """real composition with two covariate-dependent sub-models on different covariate columns vs. the parts evaluated on their own columns"""
+    import chi as real
+    rng = np.random.default_rng(rec.seed)
+    nn = 3
+    for centered in (True, False):
+        parts = [real.CovariatePopulationModel(real.GaussianModel(centered=centered), real.LinearCovariateModel(n_cov=1)), real.GaussianModel(),
+                 real.CovariatePopulationModel(real.LogNormalModel(centered=centered), real.LinearCovariateModel(n_cov=2)), real.PooledModel()]
+        cm = real.ComposedPopulationModel(parts)
+        cm.set_n_ids(nn)
+        for mm in parts:
+            mm.set_n_ids(nn)
+        pars = [np.array([0.5, 1.0, 0.2, 0.05]), np.array([0.3, 0.8]), np.array([0.2, 0.7, 0.1, -0.2, 0.02, 0.03]), np.array([1.2])]
+        cov = np.hstack([rng.uniform(0.5, 1.5, (nn, 1)), rng.uniform(2.0, 3.0, (nn, 2))])
+        cols = [cov[:, :1], None, cov[:, 1:], None]
+        psi = np.hstack([rng.uniform(0.5, 2.0, (nn, 3)), np.full((nn, 1), 1.2)])
+        u = rng.normal(size=psi.shape)
+        par = np.concatenate(pars)
+        case = {'sub-models': 'Covariate(Gaussian | 1 covariate), Gaussian, Covariate(LogNormal | 2 covariates), Pooled; centered=%s' % centered, 'covariates': cov.tolist(), 'parameters': par.tolist(), 'psi': psi.tolist()}
+        try:
+            def part_kw(k):
+                return {} if cols[k] is None else {'covariates': cols[k]}
+            tot = float(cm.compute_log_likelihood(par, psi, covariates=cov))
+            want = float(sum(mm.compute_log_likelihood(pars[k], psi[:, k:k + 1], **part_kw(k)) for k, mm in enumerate(parts)))
+            if not np.isclose(tot, want):
+                return dict(case, what='composed log-likelihood %r, the sum of the sub-models on their own covariate columns is %r' % (tot, want), expected=want, observed=tot)
+            s, dp, dt = cm.compute_sensitivities(par, psi, covariates=cov, dlogp_dpsi=u)
+            dps, dts = [], []
+            for k, mm in enumerate(parts):
+                _, a, b = mm.compute_sensitivities(pars[k], psi[:, k:k + 1], dlogp_dpsi=u[:, k:k + 1], **part_kw(k))
+                dps.append(np.asarray(a).reshape(nn, 1))
+                dts.append(np.asarray(b).flatten())
+            if not (np.isclose(float(s), want) and np.allclose(dp, np.hstack(dps)) and np.allclose(dt, np.concatenate(dts))):
+                return dict(case, what='composed sensitivities differ from those of the sub-models on their own covariate columns', expected=np.concatenate(dts).tolist(), observed=np.asarray(dt).tolist())
+            s, vec = cm.compute_sensitivities(par, psi, covariates=cov, dlogp_dpsi=u, reduce=True)
+            if not np.isclose(float(s), want):
+                return dict(case, what='composed score (reduced sensitivities) %r, the sum of the sub-models on their own covariate columns is %r' % (float(s), want), expected=want, observed=float(s))
+            eta = rng.normal(size=psi.shape)
+            ip = np.asarray(cm.compute_individual_parameters(par, eta, covariates=cov), dtype=float)
+            for k, mm in enumerate(parts):
+                w_k = np.asarray(mm.compute_individual_parameters(pars[k], eta[:, k:k + 1], **part_kw(k)), dtype=float).reshape(nn, 1)
+                if not np.allclose(ip[:, k:k + 1], w_k):
+                    return dict(case, what='individual parameters of sub-model %d differ from the sub-model evaluated on its own covariate columns' % k, expected=w_k.tolist(), observed=ip[:, k:k + 1].tolist())
+        except Exception as ex:
+            return dict(case, what='native composition raises %r' % (ex,), expected='values', observed=repr(ex))
+    return None
+
+
 def tasks(tier_hint=None):
     out = [('PooledModel', lambda rec: point_mass(rec, 'PooledModel')),
            ('HeterogeneousModel', lambda rec: point_mass(rec, 'HeterogeneousModel'))]
@@ -578,4 +717,6 @@ def tasks(tier_hint=None):
                     return
                 composed(rec, kinds)
             out.append(('composed:' + ','.join(kinds), run))
+    for kinds in [('cov', 'cov'), ('cov', 'regular', 'cov'), ('pooled', 'cov', 'cov'), ('cov', 'hetero', 'regular', 'cov')]:
+        out.append(('composed-covariates:' + ','.join(kinds), (lambda rec, kinds=kinds: covariate_slices(rec, kinds))))
     return out
